@@ -33,7 +33,7 @@ MIN_NONTRIVIAL = 10
 REQUIRED_COUNTERS = {'c15_resets_evaluated': 40,
                      'c15_resets_with_qualifying_work': 10,
                      'c15_resets_without_manual_work': 10,
-                     'c15_second_command_in_a_row': 5}
+                     'c15_second_command_in_a_row': 3}
 SHARD_TIMEOUT = {'quick': 900, 'thorough': 5400}
 
 
